@@ -42,6 +42,9 @@ type DOp struct {
 	// exec only: Reissue: when this run's signalsFromStep channel is closed (the moment its result is
 	// stored) the consumer calls Execute with the same run ID again, once
 	Reissue bool `json:"reissue,omitempty"`
+	// exec only: Unenc: the input holds a value CBOR cannot encode (func, chan, complex): the
+	// work-start fails in the encoder, before a single byte is written; the connection stays healthy
+	Unenc int `json:"unenc,omitempty"`
 }
 
 // SOp is one operation of the scripted server.
@@ -54,7 +57,8 @@ type DOp struct {
 //	expectdonelong  the same, but like the real server: silent, output open, for as long as it takes
 //	             (bounded by 9 s, well beyond the director's timeout for a call)
 //	expectsig N  wait until N signal messages have been consumed
-//	hello        send the hello message (version / schema of the session)
+//	hello [R]    send the hello message (version / schema of the session); R: a flavour of schema
+//	             that fails to unserialize (atpcs.BadKinds)
 //	done R X     work-done for run R with output "o<X>"
 //	sig R        a signal emitted by run R
 //	err R SF VF  an error message
@@ -123,7 +127,10 @@ type Job struct {
 	// stays pending until the director opens the gate "write" and returns an error (a write side
 	// that fails independently: the peer already acts on the message the client believes lost)
 	WriteFailDeliver bool `json:"wfaildeliver,omitempty"`
-	TimeoutMs        int  `json:"timeout_ms"`
+	// PreHello: before the session, ANOTHER client in the same process reads a hello whose schema is
+	// damaged in this flavour (and must reject it); package-level state it leaves behind is shared
+	PreHello  string `json:"prehello,omitempty"`
+	TimeoutMs int    `json:"timeout_ms"`
 }
 
 // Snap is the abstract client state at the end of a critical section.
@@ -168,6 +175,11 @@ type Item struct {
 	// Raw CBOR item, or a sticky fault
 	Kind string `json:"kind"` // raw | eof | ioerr | garbage
 	Raw  []byte `json:"raw,omitempty"`
+	// the session driver's judgement of a hello item (made in the disposable driver process, under a
+	// watchdog: loading a schema touches package-level state of the SDK)
+	HelloJudged bool  `json:"hj,omitempty"`
+	HelloVer    int64 `json:"hv,omitempty"`
+	HelloOK     bool  `json:"hok,omitempty"`
 }
 
 // JobResult is what the session driver reports for one job.
